@@ -71,10 +71,26 @@ pub broadcast proof fn lemma_interleave_len<T>(a: Seq<T>, b: Seq<T>)
 
 #[verifier::external_body]
 pub fn once<T>(x: T) -> (r: VSeqIter<T>) ensures r.items() == seq![x] { unimplemented!() }
+// values of a scalar / point sequence handed to a multiscalar multiplication (items may be owned or references)
+#[verifier::prophetic]
+pub uninterp spec fn iter_scalars<I: IntoIterator>(i: I) -> Seq<Scalar>;
+#[verifier::prophetic]
+pub uninterp spec fn iter_points<I: IntoIterator>(i: I) -> Seq<P>;
+pub broadcast axiom fn ax_iter_scalars_vseq<'a>(i: VSeqIter<&'a Scalar>) ensures #[trigger] iter_scalars(i) == i.items().map_values(|x: &Scalar| *x);
+pub broadcast axiom fn ax_iter_points_vseq<'a>(i: VSeqIter<&'a P>) ensures #[trigger] iter_points(i) == i.items().map_values(|x: &P| *x);
+pub broadcast axiom fn ax_iter_scalars_arr2<'a>(s: [&'a Scalar; 2]) ensures #[trigger] iter_scalars(s) == seq![*s[0], *s[1]];
+pub broadcast axiom fn ax_iter_points_arr2<'a>(s: [&'a P; 2]) ensures #[trigger] iter_points(s) == seq![*s[0], *s[1]];
 impl P {
+    // curve25519-dalek VartimeMultiscalarMul / MultiscalarMul: assert_eq! on the two lengths (edwards.rs), result is the linear combination
     #[verifier::external_body]
     pub fn vartime_multiscalar_mul<I: IntoIterator, J: IntoIterator>(a: I, b: J) -> (r: P)
         requires into_iter_len(a) == into_iter_len(b)
+        ensures r == msm(iter_scalars(a), iter_points(b))
+    { unimplemented!() }
+    #[verifier::external_body]
+    pub fn multiscalar_mul<I: IntoIterator, J: IntoIterator>(a: I, b: J) -> (r: P)
+        requires into_iter_len(a) == into_iter_len(b)
+        ensures r == msm(iter_scalars(a), iter_points(b))
     { unimplemented!() }
 }
 pub open spec fn min3(a: nat, b: nat, c: nat) -> nat { if a <= b && a <= c { a } else if b <= c { b } else { c } }
